@@ -49,6 +49,21 @@ func checkPerKernelFieldsStoredAlways(c *core.Ctx, rule string) {
 		// fields the enumeration itself maintains (the cursor, the count) are R08.6's subject;
 		// here: is there a path through SetKernel without a store to f
 		stores := func(n *core.Node) bool {
+			if d, isD := n.Instr.(*ssa.Defer); isD {
+				// a deferred closure that stores the field: the store happens when the frame returns
+				if mc, isMC := d.Call.Value.(*ssa.MakeClosure); isMC {
+					if lit, isFn := mc.Fn.(*ssa.Function); isFn {
+						for _, b := range lit.Blocks {
+							for _, in := range b.Instrs {
+								if s, ok := in.(*ssa.Store); ok && core.FieldOfAddr(s.Addr) == f && b == lit.Blocks[0] {
+									return true
+								}
+							}
+						}
+					}
+				}
+				return false
+			}
 			s, ok := n.Instr.(*ssa.Store)
 			return ok && core.FieldOfAddr(s.Addr) == f
 		}
